@@ -212,6 +212,121 @@ Definition c06_step_ok (e : epoch) (hist : list pstep) (st : pstep) : bool :=
                (fold_right sset_insert [] (map v_slot acc)) in
   sound && complete.
 
+(* ---------- specification closure shared by the C07 / C08 oracles ---------- *)
+(* what the held certificates and known parent links justify (Spec of C07/C08):
+   direct_final(s,b) = fast-final cert for (s,b), or final cert for s and notar cert for (s,b);
+   final* = closure of direct_final under known parent links; skipped* = slots strictly between a
+   final* block and its known parent *)
+Definition has_cert (cs : list cert) (s : slot) (tag : N) (h : option hash) : bool :=
+  existsb (fun c => (c_slot c =? s) && (ctag (c_kind c) =? tag)
+                    && match h, cert_hash c with Some x, Some y => x =? y | None, _ => true | Some _, None => false end) cs.
+Definition direct_finals (cs : list cert) : list blockid :=
+  flat_map (fun c => match c_kind c with
+                     | CFastFinal h => [(c_slot c, h)]
+                     | CNotar h => if has_cert cs (c_slot c) 4 None then [(c_slot c, h)] else []
+                     | _ => []
+                     end) cs.
+Definition bmem (b : blockid) (l : list blockid) : bool := existsb (bid_eqb b) l.
+Fixpoint close_finals (fuel : nat) (blocks : list (blockid * blockid)) (fin : list blockid) : list blockid :=
+  match fuel with
+  | O => fin
+  | S f =>
+    let more := flat_map (fun bp => if bmem (fst bp) fin && negb (bmem (snd bp) fin) then [snd bp] else []) blocks in
+    match more with [] => fin | _ => close_finals f blocks (fin ++ more) end
+  end.
+Definition finals_star (cs : list cert) (blocks : list (blockid * blockid)) : list blockid :=
+  close_finals (S (length blocks)) blocks (direct_finals cs).
+Definition skipped_star (fin : list blockid) (blocks : list (blockid * blockid)) (t : slot) : bool :=
+  existsb (fun bp => bmem (fst bp) fin && (fst (snd bp) <? t) && (t <? fst (fst bp))) blocks.
+Definition spec_nf (cs : list cert) (fin : list blockid) (b : blockid) : bool :=
+  bid_eqb b (0, 0) || has_cert cs (fst b) 0 (Some (snd b)) || has_cert cs (fst b) 1 (Some (snd b))
+  || has_cert cs (fst b) 3 (Some (snd b)) || bmem b fin.
+Definition spec_sk (cs : list cert) (fin : list blockid) (blocks : list (blockid * blockid)) (t : slot) : bool :=
+  has_cert cs t 2 None || skipped_star fin blocks t.
+Definition ready_spec (cs : list cert) (blocks : list (blockid * blockid)) (s : slot) (b : blockid) : bool :=
+  let fin := finals_star cs blocks in
+  is_window_start s && (fst b <? s) && spec_nf cs fin b
+  && forallb (spec_sk cs fin blocks) (seqN (fst b + 1) (N.to_nat (s - fst b - 1))).
+Definition spec_decided (cs : list cert) (blocks : list (blockid * blockid)) (t : slot) : bool :=
+  let fin := finals_star cs blocks in
+  existsb (fun b => fst b =? t) fin || skipped_star fin blocks t.
+Fixpoint decided_prefix (fuel : nat) (cs : list cert) (blocks : list (blockid * blockid)) (f : slot) : slot :=
+  match fuel with
+  | O => f
+  | S k => if spec_decided cs blocks (f + 1) then decided_prefix k cs blocks (f + 1) else f
+  end.
+(* candidate parents: every block mentioned by a certificate or a registration, and genesis *)
+Definition known_blocks (cs : list cert) (blocks : list (blockid * blockid)) : list blockid :=
+  (0, 0) :: flat_map (fun c => match cert_hash c with Some h => [(c_slot c, h)] | None => [] end) cs
+  ++ flat_map (fun bp => [fst bp; snd bp]) blocks.
+
+(* ---------- C07 oracle: parent-ready ---------- *)
+Definition ev_pr (evs : list pevent) (s : slot) (b : blockid) : bool :=
+  existsb (fun x => match x with EParentReady s' b' => (s =? s') && bid_eqb b b' | _ => false end) evs.
+Definition c07_step_ok (e : epoch) (hist : list pstep) (st : pstep) : bool :=
+  let cs := all_certs (st :: hist) in
+  let blocks := all_blocks (st :: hist) in
+  let before := all_events hist in
+  let now := sp_events st in
+  let obs := sp_obs st in
+  let query s := match alookup s (ob_parents_ready obs) with Some l => l | None => [] end in
+  (* soundness + once + announcements agree with the query *)
+  forallb (fun x => match x with
+                    | EParentReady s b =>
+                      ready_spec cs blocks s b && negb (ev_pr before s b)
+                      && Nat.eqb (count_ev (fun y => match y with EParentReady s' b' => (s =? s') && bid_eqb b b' | _ => false end) now) 1
+                      && ((s <? ob_first_unpruned obs) || bmem b (query s))
+                    | _ => true
+                    end) now
+  && forallb (fun sl => forallb (fun b => ready_spec cs blocks (fst sl) b) (snd sl)) (ob_parents_ready obs)
+  (* completeness: for every retained window start s and every candidate parent b that has not been pruned
+     (marks for pruned slots are deliberately ignored - their windows are decided), spec => reported *)
+  && forallb (fun sl => (fst sl <? ob_first_unpruned obs)
+                        || forallb (fun b => (fst b <? ob_first_unpruned obs)
+                                             || negb (ready_spec cs blocks (fst sl) b) || bmem b (snd sl)) (known_blocks cs blocks))
+             (ob_parents_ready obs)
+  (* waiters: an immediate answer is the minimal ready parent; a woken waiter receives a ready parent;
+     a registered waiter has been woken as soon as the slot has a ready parent *)
+  && match sp_op st, sp_res st with
+     | OpWait s, RWait (Some b) => match bid_sort (query s) with m :: _ => bid_eqb m b | [] => false end
+     | OpWait s, RWait None => match query s with [] => true | _ => false end
+     | _, _ => true
+     end
+  && forallb (fun x => match x with EWaiterWoken s b => ready_spec cs blocks s b | _ => true end) (sp_woken st)
+  && forallb (fun h => match sp_op h, sp_res h with
+                       | OpWait s, RWait None =>
+                         (s <? ob_first_unpruned obs) || match query s with [] => true | _ => false end
+                         || existsb (fun x => match x with EWaiterWoken s' _ => s =? s' | _ => false end)
+                                    (flat_map sp_woken (st :: hist))
+                       | _, _ => true
+                       end) hist.
+
+(* ---------- C08 oracle: finality tracking and pruning ---------- *)
+Definition max_slot_of (l : list blockid) : slot := fold_right N.max 0 (map fst l).
+Definition c08_step_ok (e : epoch) (hist : list pstep) (st : pstep) : bool :=
+  let cs := all_certs (st :: hist) in
+  let blocks := all_blocks (st :: hist) in
+  let obs := sp_obs st in
+  let prev_first := match hist with h :: _ => ob_first_unpruned (sp_obs h) | [] => 0 end in
+  let prev_fin := match hist with h :: _ => ob_finalized (sp_obs h) | [] => 0 end in
+  (* highest finalized slot: never decreases and equals what the held certificates justify *)
+  (prev_fin <=? ob_finalized obs)
+  && (ob_finalized obs =? max_slot_of (direct_finals cs))
+  (* watermark = end of the maximal decided prefix (nothing undecided is dropped, nothing decided is kept back) *)
+  && (ob_first_unpruned obs =? decided_prefix (S (length cs + length blocks + N.to_nat (ob_finalized obs))) cs blocks 0)
+  (* nothing older than the watermark is retained *)
+  && forallb (fun s => ob_first_unpruned obs <=? s) (ob_retained_slots obs)
+  (* old slots are refused, undecided ones accepted *)
+  && match sp_op st, sp_res st with
+     | OpVote v, RVerdict r =>
+       Bool.eqb (match r with VOutOfBounds => true | _ => false end)
+                ((v_slot v <? prev_first) || (prev_fin + 2 * SLOTS_PER_EPOCH <=? v_slot v))
+     | OpCert c, RVerdict r =>
+       Bool.eqb (match r with VOutOfBounds => true | _ => false end)
+                ((c_slot c <? prev_first) || (prev_fin + 2 * SLOTS_PER_EPOCH <=? c_slot c))
+     | _, _ => true
+     end.
+
 (* ---------- runner ---------- *)
 Definition queried (st : pstep) : list slot := map fst (ob_parents_ready (sp_obs st)).
 
@@ -224,6 +339,8 @@ Definition oracle_ok (sel : N) (e : epoch) (hist : list pstep) (st : pstep) : bo
   | 3 => c03_step_ok e hist st
   | 4 => c04_step_ok hist st
   | 6 => c06_step_ok e hist st
+  | 7 => c07_step_ok e hist st
+  | 8 => c08_step_ok e hist st
   | _ => true
   end end.
 
